@@ -395,6 +395,79 @@ Lemma res_zero_iff_not_failed : forall r,
   negb (fst (presult_code r) =? 0) = presult_failed r.
 Proof. intros [r s| |]; [destruct r; reflexivity|reflexivity|reflexivity]. Qed.
 
+Lemma pall_failed_set_cum : forall c q a b n,
+  pall_failed_before c (set_cum q a b) n = pall_failed_before c q n.
+Proof. induction n as [|n IH]; [reflexivity|]. cbn [pall_failed_before]. rewrite IH. reflexivity. Qed.
+
+Lemma prop_req_set_cum : forall c q a b, prop_req c (set_cum q a b) = prop_req c q.
+Proof. intros. unfold prop_req. rewrite pall_failed_set_cum. reflexivity. Qed.
+
+Lemma model_pool_reqs_length : forall pl xs t f, List.length (model_pool_reqs pl xs t f) = List.length xs.
+Proof. induction xs as [|x r IH]; intros t f; [reflexivity|]. cbn [model_pool_reqs List.length]. rewrite IH. reflexivity. Qed.
+
+Lemma model_pool_reqs_props : forall c (xs : list xs_t) t f,
+  (k_retry c = true -> valid (k_pol c)) ->
+  (forall x, In x xs -> po_result (pool_handle (pool_of c) true (model_pool_rq x)) <> PHang) ->
+  forallb (prop_req c) (model_pool_reqs (pool_of c) xs t f) = true.
+Proof.
+  intros c xs. induction xs as [|x r IH]; intros t f Hv Hh; [reflexivity|].
+  cbn [model_pool_reqs forallb]. rewrite prop_req_set_cum.
+  rewrite (prop_req_sound c x Hv (Hh x (or_introl eq_refl))).
+  apply IH; [exact Hv|]. intros y Hy. apply Hh. right. exact Hy.
+Qed.
+
+Lemma model_pool_reqs_failed : forall pl (xs : list xs_t) t f,
+  List.length (filter (fun o => presult_failed (po_result o)) (pool_run pl (map model_pool_rq xs))) =
+  List.length (filter (fun q => negb (q_res q =? 0)) (model_pool_reqs pl xs t f)).
+Proof.
+  intros pl xs. induction xs as [|x r IH]; intros t f; [reflexivity|].
+  cbn [map pool_run filter model_pool_reqs]. fold (pool_run pl (map model_pool_rq r)).
+  assert (Ex : negb (q_res (set_cum (model_pool_req pl x)
+                 (if pl_cb pl then t + Z.of_nat (List.length (po_records (pool_handle pl true (model_pool_rq x)))) else -1)
+                 (if pl_cb pl then f + count_true (po_records (pool_handle pl true (model_pool_rq x))) else -1)) =? 0) =
+               presult_failed (po_result (pool_handle pl true (model_pool_rq x)))).
+  { destruct x as [[[[stream script] cancel] draws] pick]. cbn [set_cum model_pool_req q_res].
+    apply res_zero_iff_not_failed. }
+  rewrite Ex.
+  specialize (IH (t + Z.of_nat (List.length (po_records (pool_handle pl true (model_pool_rq x)))))
+                 (f + count_true (po_records (pool_handle pl true (model_pool_rq x))))).
+  destruct (presult_failed _); cbn [List.length]; rewrite IH; reflexivity.
+Qed.
+
+(** the running totals of the model satisfy the per-request clause *)
+Lemma model_pool_reqs_cum : forall pl (xs : list xs_t) t f, pool_ok pl ->
+  (forall x, In x xs -> po_result (pool_handle pl true (model_pool_rq x)) <> PHang) ->
+  prop_cum (pl_cb pl) (model_pool_reqs pl xs t f) t f = true.
+Proof.
+  intros pl xs. induction xs as [|x r IH]; intros t f Hok Hh; [reflexivity|].
+  cbn [model_pool_reqs prop_cum].
+  assert (Hr : forall y, In y r -> po_result (pool_handle pl true (model_pool_rq y)) <> PHang)
+    by (intros y Hy; apply Hh; right; exact Hy).
+  destruct (pl_cb pl) eqn:Ecb.
+  - rewrite (breaker_records_once pl (model_pool_rq x) Ecb Hok (Hh x (or_introl eq_refl))).
+    assert (Eres : q_res (set_cum (model_pool_req pl x)
+                     (t + Z.of_nat (List.length [presult_failed (po_result (pool_handle pl true (model_pool_rq x)))]))
+                     (f + count_true [presult_failed (po_result (pool_handle pl true (model_pool_rq x)))])) =
+                   fst (presult_code (po_result (pool_handle pl true (model_pool_rq x)))))
+      by (destruct x as [[[[stream script] cancel] draws] pick]; reflexivity).
+    rewrite Eres. cbn [q_cbt q_cbf set_cum List.length].
+    pose proof (res_zero_iff_not_failed (po_result (pool_handle pl true (model_pool_rq x)))) as Hz.
+    assert (Ef : count_true [presult_failed (po_result (pool_handle pl true (model_pool_rq x)))] =
+                 (if fst (presult_code (po_result (pool_handle pl true (model_pool_rq x)))) =? 0 then 0 else 1)).
+    { destruct (fst (presult_code (po_result (pool_handle pl true (model_pool_rq x)))) =? 0);
+        cbn [negb] in Hz; rewrite <- Hz; reflexivity. }
+    rewrite Ef. change (Z.of_nat 1) with 1. rewrite !Z.eqb_refl. cbn [andb].
+    specialize (IH (t + 1) (f + (if fst (presult_code (po_result (pool_handle pl true (model_pool_rq x)))) =? 0 then 0 else 1)) Hok Hr).
+    try rewrite Ecb in IH. exact IH.
+  - cbn [andb]. clear IH Hh Hr.
+    generalize (t + Z.of_nat (List.length (po_records (pool_handle pl true (model_pool_rq x))))).
+    generalize (f + count_true (po_records (pool_handle pl true (model_pool_rq x)))).
+    generalize (t + 1).
+    generalize (f + (if q_res (set_cum (model_pool_req pl x) (-1) (-1)) =? 0 then 0 else 1)).
+    induction r as [|y r IHr]; intros a b c0 d; [reflexivity|].
+    cbn [model_pool_reqs prop_cum]. rewrite ?Ecb. cbn [andb]. apply IHr.
+Qed.
+
 Theorem prop_pool_sound : forall retry p timeout cb fcodes (xs : list xs_t),
   (retry = true -> valid p) ->
   let c := model_pool_case retry p timeout cb fcodes xs in
@@ -407,32 +480,24 @@ Proof.
   destruct (k_retry c && negb (validb (k_pol c))) eqn:E; [reflexivity|].
   assert (Hv' : k_retry c = true -> valid (k_pol c)) by (rewrite Ek, Ep; exact Hv).
   set (pl := pool_of c) in *.
-  assert (Ereqs : k_reqs c = map (model_pool_req pl) xs) by reflexivity.
-  assert (A : forallb (prop_req c) (k_reqs c) = true).
-  { rewrite Ereqs. apply forallb_forall. intros q Hq. apply in_map_iff in Hq as [x [<- Hx]].
-    apply prop_req_sound; [exact Hv'|apply Hh; exact Hx]. }
-  rewrite A. cbn [andb].
-  assert (Ecb : k_cb c = cb) by reflexivity. rewrite Ecb.
-  destruct cb eqn:Ecb'; [|reflexivity].
+  assert (Ereqs : k_reqs c = model_pool_reqs pl xs 0 0) by reflexivity.
   assert (Hok : pool_ok pl).
   { unfold pool_ok, pl, pool_of. cbn [pl_retry]. destruct (k_retry c) eqn:Er; [apply Hv'; reflexivity|exact I]. }
+  assert (A : forallb (prop_req c) (k_reqs c) = true).
+  { rewrite Ereqs. apply model_pool_reqs_props; assumption. }
+  assert (Ecb : k_cb c = cb) by reflexivity.
+  assert (Ecb2 : pl_cb pl = cb) by reflexivity.
+  assert (B : prop_cum (k_cb c) (k_reqs c) 0 0 = true).
+  { rewrite Ereqs, Ecb, <- Ecb2. apply model_pool_reqs_cum; assumption. }
+  rewrite A, B. cbn [andb]. rewrite Ecb.
+  destruct cb eqn:Ecb'; [|reflexivity].
   assert (Hcbt : k_cbt c = Z.of_nat (total_records (pool_run pl (map model_pool_rq xs)))) by reflexivity.
   assert (Hcbf : k_cbf c = Z.of_nat (failed_records (pool_run pl (map model_pool_rq xs)))) by reflexivity.
   destruct (breaker_run_records pl (map model_pool_rq xs) ltac:(reflexivity) Hok) as [T1 T2].
   { intros rq Hrq. apply in_map_iff in Hrq as [x [<- Hx]]. apply Hh. exact Hx. }
-  rewrite Hcbt, Hcbf, T1, T2, Ereqs, !map_length.
+  rewrite Hcbt, Hcbf, T1, T2, Ereqs, model_pool_reqs_length, map_length.
   rewrite Z.eqb_refl. cbn [andb].
-  assert (G : forall l : list xs_t,
-    List.length (filter (fun o => presult_failed (po_result o)) (pool_run pl (map model_pool_rq l))) =
-    List.length (filter (fun q => negb (q_res q =? 0)) (map (model_pool_req pl) l))).
-  { induction l as [|x l IH]; [reflexivity|].
-    cbn [map pool_run filter]. fold (pool_run pl (map model_pool_rq l)).
-    assert (Ex : negb (q_res (model_pool_req pl x) =? 0) =
-                 presult_failed (po_result (pool_handle pl true (model_pool_rq x)))).
-    { destruct x as [[[[stream script] cancel] draws] pick]. cbn [model_pool_req q_res].
-      apply res_zero_iff_not_failed. }
-    rewrite Ex. destruct (presult_failed _); cbn [List.length]; rewrite IH; reflexivity. }
-  rewrite G. apply Z.eqb_refl.
+  rewrite (model_pool_reqs_failed pl xs 0 0). apply Z.eqb_refl.
 Qed.
 
 (** with a pool timeout the no-hang hypothesis is automatic *)
